@@ -37,16 +37,26 @@ func (schemas Schemas) Locate(pkg string) (*Schema, bool) {
 }
 
 func (schemas Schemas) ResolveToType(def Type) Type {
-	if !def.IsRef() {
-		return def
+	// references already followed: a cycle of references (`A: B`, `B: A`)
+	// resolves to nothing, the reference is returned as it is.
+	seen := make(map[string]struct{})
+
+	for def.IsRef() {
+		ref := def.AsRef()
+		if _, cyclic := seen[ref.String()]; cyclic {
+			return def
+		}
+		seen[ref.String()] = struct{}{}
+
+		resolved, found := schemas.LocateObjectByRef(ref)
+		if !found {
+			return def
+		}
+
+		def = resolved.Type
 	}
 
-	resolved, found := schemas.LocateObjectByRef(def.AsRef())
-	if !found {
-		return def
-	}
-
-	return schemas.ResolveToType(resolved.Type)
+	return def
 }
 
 func (schemas Schemas) LocateObject(pkg string, name string) (Object, bool) {
@@ -199,16 +209,25 @@ func (schema *Schema) HasObject(name string) bool {
 }
 
 func (schema *Schema) Resolve(typeDef Type) (Type, bool) {
-	if !typeDef.IsRef() {
-		return typeDef, true
+	// references already followed: a cycle of references can not be resolved.
+	seen := make(map[string]struct{})
+
+	for typeDef.IsRef() {
+		referredType := typeDef.AsRef().ReferredType
+		if _, cyclic := seen[referredType]; cyclic {
+			return Type{}, false
+		}
+		seen[referredType] = struct{}{}
+
+		referredObj, found := schema.LocateObject(referredType)
+		if !found {
+			return Type{}, false
+		}
+
+		typeDef = referredObj.Type
 	}
 
-	referredObj, found := schema.LocateObject(typeDef.AsRef().ReferredType)
-	if !found {
-		return Type{}, false
-	}
-
-	return schema.Resolve(referredObj.Type)
+	return typeDef, true
 }
 
 type SchemaMeta struct {
